@@ -63,14 +63,19 @@ class WFQ(Scheduler):
             item: PriorityItem = yield self.store.get()
             packet: Packet = item.item
             yield env.process(self.send_packet(packet))
-            self.update_vtime()
-            class_id = self.flow2class(packet.flow_id)
-            self.class_count[class_id] -= 1
-            if self.class_count[class_id] == 0:
-                self.active_set.remove(class_id)
-            if len(self.active_set) == 0:
-                self.reset_vtime()
-            self.last_time = env.now
+
+    def packet_departed(self, packet: Packet):
+        # done the moment the transmission ends: a packet that arrives in this
+        # very instant, after the last departure of a busy period, has to find
+        # the scheduler empty (virtual time and finish stamps reset)
+        self.update_vtime()
+        class_id = self.flow2class(packet.flow_id)
+        self.class_count[class_id] -= 1
+        if self.class_count[class_id] == 0:
+            self.active_set.remove(class_id)
+        if len(self.active_set) == 0:
+            self.reset_vtime()
+        self.last_time = self.env.now
 
     def put(self, packet: Packet):
         class_id = self.flow2class(packet.flow_id)
